@@ -102,7 +102,7 @@ pub fn def_c09() -> PropDef {
         quick_runs: 40_000,
         thorough_runs: 2_000_000,
         level: "exploration",
-        rule: "descriptor-heavy workloads, index%4: 0 = hostile streams to BackendReqHandler, 1 = hostile streams to FrontendReqHandler (0..=40 descriptors of three kinds on first/later bytes, on requests that take none, beyond the 32-descriptor limit, teardown after message k), 2 = client calls with mutated replies carrying 0..3 descriptors, 3 = well-formed server sessions with truncation at a random byte; oracle: /proc/self/fd (number, target) before the scenario equals the table after all endpoints, handlers and harness-owned files are dropped, and every descriptor delivered to a handler is still open when the harness drops it (the same epilogue runs after every run of every other check); non-trivial = at least one descriptor crossed the socket",
+        rule: "descriptor-heavy workloads, index%8 >= 4: live-daemon histories (ring configuration with kick/call replacement and table replacement; dirty-log installation; memory-table histories with failing mmaps; adversarial control messages) whose descriptors are owned by vhost-user-backend; otherwise index%4: 0 = hostile streams to BackendReqHandler, 1 = hostile streams to FrontendReqHandler (0..=40 descriptors of three kinds on first/later bytes, on requests that take none, beyond the 32-descriptor limit, teardown after message k), 2 = client calls with mutated replies carrying 0..3 descriptors, 3 = well-formed server sessions with truncation at a random byte; oracle: /proc/self/fd (number, target) before the scenario equals the table after all endpoints, handlers and harness-owned files are dropped, and every descriptor delivered to a handler is still open when the harness drops it (the same epilogue runs after every run of every other check); non-trivial = at least one descriptor crossed the socket",
         assumptions: ASSUME,
         real: REAL_W,
         stubs: STUB_W,
@@ -114,6 +114,21 @@ pub fn def_c09() -> PropDef {
 
 fn run_c09(sim: &Sim, cfg: &RunCfg) -> RunOut {
     sim.choose_policy();
+    // descriptors that reach the daemon: kick/call/err eventfds, region files, the dirty-log
+    // file, the backend-request socket (ownership transfer inside vhost-user-backend)
+    let sub = RunCfg {
+        prop: cfg.prop,
+        tier: cfg.tier,
+        seed: cfg.seed,
+        index: 1_000_000 + cfg.index / 8,
+    };
+    match cfg.index % 8 {
+        4 => return super::c14::run(sim, &sub),
+        5 => return super::c15::run(sim, &sub),
+        6 => return super::c13::run(sim, &sub),
+        7 => return super::c05d::run(sim, &sub),
+        _ => {}
+    }
     let d;
     match cfg.index % 4 {
         0 | 1 => {
